@@ -50,6 +50,10 @@ pub(crate) struct ReCompiler {
     has_back_references: bool,
 
     re_flags: ReFlags,
+
+    // verification hook: compile without any compile-time optimisation
+    #[cfg(regexml_verif)]
+    pub(crate) verif_no_optimize: bool,
 }
 
 /// Regular expression error
@@ -97,6 +101,8 @@ impl ReCompiler {
             captures: HashSet::new(),
             has_back_references: false,
             re_flags,
+            #[cfg(regexml_verif)]
+            verif_no_optimize: false,
         }
     }
 
@@ -1008,6 +1014,25 @@ impl ReCompiler {
                     return Err(Error::syntax("Unmatched close paren"));
                 }
                 return Err(Error::syntax("Unexpected input remains"));
+            }
+            #[cfg(regexml_verif)]
+            if self.verif_no_optimize {
+                // no Operation::optimize, and every compile-time fact cleared
+                let mut program = ReProgram::new(
+                    self.pattern,
+                    operation,
+                    Some(self.capturing_open_paren_count),
+                    self.re_flags.clone(),
+                );
+                if self.has_back_references {
+                    program.optimization_flags |= OPT_HASBACKREFS;
+                }
+                program.optimization_flags &= !crate::re_program::OPT_HASBOL;
+                program.prefix = None;
+                program.initial_char_class = None;
+                program.preconditions.clear();
+                program.minimum_length = 0;
+                return Ok(program);
             }
             let operation = operation.optimize(&self.re_flags);
 
